@@ -6,7 +6,7 @@
 #include "vc_prelude.h"
 
 extern const void *g_r, *g_s, *g_q;
-extern int g_sign_r, g_sign_s, g_zero_r, g_zero_s, g_cmp_r, g_cmp_s, g_oncurve, g_infty, g_cmpsec;    /* verdicts, -9 = never asked */
+extern int g_sign_r, g_sign_s, g_zero_r, g_zero_s, g_cmp_r, g_cmp_s, g_oncurve, g_infty, g_infty_q, g_cmpsec;    /* verdicts, -9 = never asked */
 extern size_t g_cmpsec_len, g_last_mod_used, g_read_len, g_rsh_bits, g_ord_bits;
 extern int g_md_calls, g_mulsim_calls;
 #define VC_UNASKED (-9)
@@ -48,8 +48,10 @@ __CPROVER_ensures((__CPROVER_return_value == 0 || __CPROVER_return_value == 1) &
 ;
 int ep_is_infty_g(const ep_t p)
 __CPROVER_requires(__CPROVER_is_fresh(p, sizeof(ep_st)))
-VC_ASSIGNS(g_infty)
-__CPROVER_ensures((__CPROVER_return_value == 0 || __CPROVER_return_value == 1) && g_infty == __CPROVER_return_value)
+VC_ASSIGNS(g_infty, g_infty_q)
+__CPROVER_ensures(__CPROVER_return_value == 0 || __CPROVER_return_value == 1)
+__CPROVER_ensures(g_infty_q == ((const void *)p == g_q ? __CPROVER_return_value : __CPROVER_old(g_infty_q)))     /* asked about the public key */
+__CPROVER_ensures(g_infty == ((const void *)p != g_q ? __CPROVER_return_value : __CPROVER_old(g_infty)))        /* asked about the computed point */
 ;
 void ep_curve_get_ord_g(bn_t n)
 __CPROVER_requires(VC_BNP(n) && n->alloc == RLC_BN_SIZE)
@@ -108,12 +110,14 @@ __CPROVER_requires(VC_BNP(r) && VC_BNP(s) && __CPROVER_is_fresh(q, sizeof(ep_st)
 __CPROVER_requires(len <= 72 && __CPROVER_is_fresh(msg, len))
 __CPROVER_requires(g_r == r && g_s == s && g_q == q && g_ord_bits >= 1 && g_ord_bits <= 521)
 __CPROVER_requires(g_sign_r == VC_UNASKED && g_sign_s == VC_UNASKED && g_zero_r == VC_UNASKED && g_zero_s == VC_UNASKED && g_cmp_r == VC_UNASKED && \
-	g_cmp_s == VC_UNASKED && g_oncurve == VC_UNASKED && g_infty == VC_UNASKED && g_cmpsec == VC_UNASKED && g_md_calls == 0 && g_mulsim_calls == 0 && g_read_len == 0 && g_rsh_bits == 0)
-VC_ASSIGNS(g_sign_r, g_sign_s, g_zero_r, g_zero_s, g_cmp_r, g_cmp_s, g_oncurve, g_infty, g_cmpsec, g_cmpsec_len, g_last_mod_used, g_read_len, g_rsh_bits, g_md_calls, g_mulsim_calls, \
+	g_cmp_s == VC_UNASKED && g_oncurve == VC_UNASKED && g_infty == VC_UNASKED && g_infty_q == VC_UNASKED && g_cmpsec == VC_UNASKED && g_md_calls == 0 && g_mulsim_calls == 0 && g_read_len == 0 && g_rsh_bits == 0)
+VC_ASSIGNS(g_sign_r, g_sign_s, g_zero_r, g_zero_s, g_cmp_r, g_cmp_s, g_oncurve, g_infty, g_infty_q, g_cmpsec, g_cmpsec_len, g_last_mod_used, g_read_len, g_rsh_bits, g_md_calls, g_mulsim_calls, \
 	g_ctx.code, g_ctx.last, g_ctx.caught, g_ctx.error, g_ctx.number, g_thrown)
 __CPROVER_ensures(__CPROVER_return_value == 0 || __CPROVER_return_value == 1)
 /* range and well-formedness guards */
 __CPROVER_ensures(__CPROVER_return_value == 1 ==> (g_sign_r == RLC_POS && g_sign_s == RLC_POS && g_zero_r == 0 && g_zero_s == 0 && g_cmp_r == RLC_LT && g_cmp_s == RLC_LT && g_oncurve == 1))
+/* the public key is a point of the curve OTHER THAN THE IDENTITY (ep_on_curve alone accepts the point at infinity) */
+__CPROVER_ensures(__CPROVER_return_value == 1 ==> g_infty_q == 0)
 /* the decision: equal, over the full length of r, of a candidate of the same length, from a point that is not the identity */
 __CPROVER_ensures(__CPROVER_return_value == 1 ==> (g_cmpsec == RLC_EQ && g_cmpsec_len == r->used && g_last_mod_used == r->used && g_infty == 0 && g_mulsim_calls == 1))
 /* message handling: hashed exactly once unless pre-hashed; digest truncated to the bit length of the order */
